@@ -315,16 +315,26 @@ theorem fixed_duration_under_flapping :
 
 /-! ### Restore (task restart) -/
 
-/-- **A restart does not disturb the ID**: after `restoreEventState` from the ID's stored event state
-`(level, time, duration)` the state machine is in the simulation relation with the track "at `level`, last alert at the
-stored time, left OK `duration` before it" — which is the track the history spec had when that event was delivered
-(`advance`: `dur = t − leftOK`). By `emit_iff` / `emit_iff_batch` levels, emission and durations continue from there
-as if there had been no restart. (Which level a restart resumes at when the last delivered event is not the ID's
-current level — no-recoveries, flap suppression — is C08's subject.) -/
-theorem restore_resumes (c : Cfg) (hc : c.WF) (flap : FlapFn) (t : Int) (level : Nat) (stored dur : Int) (hl : level ≠ 0) :
-    Rel c (restoreEventState c flap t level stored dur)
-      { level := level, leftOK := some (stored - dur), lastAlert := some stored } :=
-  restore_rel c hc flap t level stored dur hl
+/-- **A restart resumes the ID from the last event its handlers received — in every configuration** (no-recoveries,
+flapping, state-changes-only included): after `restoreEventState` from the stored event state `e` the state machine
+is in the simulation relation with `specRestart (some e)` (at `e`'s level, last alert at `e`'s time, left OK `e.dur`
+before it) and its ring / flapping flag with `flapRestart` (flap detection starts over, knowing that level only). By
+`emit_iff` / `emit_iff_batch` / `stream_flags_documented` everything continues from there as the spec says. -/
+theorem restore_resumes (c : Cfg) (hc : c.WF) (dec : FlapDecide) (t : Int) (e : Ev) (hl : e.level ≠ 0) :
+    Rel c (restoreEventState c (codeFlap dec) t e.level e.time e.dur) (specRestart (some e)) ∧
+    FRel c (restoreEventState c (codeFlap dec) t e.level e.time e.dur) (flapRestart c dec (some e)) := by
+  have hne : (e.level != 0) = true := by simpa using hl
+  refine ⟨?_, ?_⟩
+  · simp only [specRestart, hne, if_true]
+    exact restore_rel c hc (codeFlap dec) t e.level e.time e.dur hl
+  · simp only [flapRestart, hne, if_true]
+    exact restore_frel c (by have := hc.two; omega) dec t e.level e.time e.dur hl
+
+/-- … and an ID without a delivered event, or whose last delivered event was its recovery, starts as new. -/
+theorem restore_fresh (c : Cfg) (hc : c.WF) (flap : FlapFn) (t : Int) (stored dur : Int) :
+    restoreEventState c flap t 0 stored dur = newAlertState c ∧ Rel c (newAlertState c) (specRestart none) ∧
+    FRel c (newAlertState c) {} :=
+  ⟨rfl, rel_init c hc, frel_init c (by have := hc.two; omega)⟩
 
 /-- The same claim for the code AS IT WAS before the second `fix:` commit of findings/C01.txt … -/
 def old_restore_keeps_duration_stmt : Prop :=
